@@ -343,7 +343,7 @@ def _len(I, self, args, kw, fr, site):
         return VInt(len(v.items))
     if isinstance(v, VRef):
         o = st.heap[v.ref]
-        if o.kind in ("list", "dict"):
+        if o.kind in ("list", "dict", "adict"):
             return VInt(len(o.data))
         if o.kind == "slist":
             return VInt(ropes.seq_len(o.data))
@@ -957,6 +957,10 @@ def _l_contains(I, self, args, kw, fr, site):
 def _d_get(I, self, args, kw, fr, site):
     o = I.st.heap[self.ref]
     default = args[1] if len(args) > 1 else NONE
+    if o.kind == "adict":
+        return I.adict_get(o, args[0], fr, site, default=default)
+    if o.kind == "sdict":
+        return I.sdict_get(o, args[0], fr, site, default=default)
     return I.dict_get(o, args[0], fr, site, default=default)
 
 
